@@ -1,7 +1,7 @@
 from verif import Ob
-META = {'bounds': 'bomb test: all 62-bit entity lengths / limits, message lengths up to 2^51, block <= 8192; layers: Content-Encoding lists of <= 3 tokens from {gzip, deflate, lzma, x, none}, layer limit 0..3, lzma limit 0..2',
-        'outside': 'byte-exact round trip through inflate / LzmaDec (library code outside /repo resp. input-proportional range-decoder loops) and the glue function htp_gzip_decompressor_decompress (flow, restart, pass-through, "nothing after the bomb verdict"): every formulation ran out of memory, see DESIGN.md C07',
-        'assumptions': ['htp_gzip_decompressor_create/destroy are counting stubs', 'hooks return a symbolic OK/ERROR'], 'trusted_base': ['harness/tx/decomp.c']}
+META = {'bounds': 'glue: fresh gzip / deflate / lzma decompressor, chunks of <= 14 symbolic bytes, one or two data calls plus the final call, decoder return-code plans of <= 6 calls (constants per query), consumed / produced amounts of every decoder call symbolic, refused delivery index constant; bomb test: all 62-bit entity lengths / limits, message lengths up to 2^51, block <= 8192; layers: Content-Encoding lists of <= 3 tokens from {gzip, deflate, lzma, x, none}, layer limit 0..3, lzma limit 0..2',
+        'outside': 'byte-exact round trip through real inflate / LzmaDec (the content of the output buffer is not modelled); a chain of two real decompressors inside one glue query (recursion bound 1); multi-member streams; more than two data calls; the decompression time limit',
+        'assumptions': ['zlib and LzmaDec are contract stubs: a call is offered the unconsumed tail of the current chunk, consumes 0..avail_in, produces 0..avail_out, Z_OK implies progress', 'htp_gzip_decompressor_create/destroy are counting stubs in the layers obligations', 'hooks return a symbolic OK/ERROR'], 'trusted_base': ['harness/tx/decomp.c', 'harness/decomp/glue.c']}
 U = ['bstr.c', 'htp_util.c', 'htp_utf8_decoder.c']
 KN = {'gzip': 0, 'deflate': 1, 'lzma': 2, 'x': 3, 'none': 4}
 def layers(toks, spc=0, tier='quick'):
@@ -17,7 +17,7 @@ def glue(scen, len1, len2=0, tier='quick', timeout=600, mem_gb=10, kfs=(), plan=
     return Ob('glue.s%d.L%d_%d.%s%s' % (scen, len1, len2, ''.join(plan), ('' if fmt == 'gzip' else '.deflate') + ('' if cberr is None else '.cberr%d' % cberr) + ('' if n1 is None else '.n%d' % n1)), 'decomp/glue.c', units=UG, models=['@libc_model.c'], remove=[], defines=dict({'SCEN': scen, 'LEN1': len1, 'LEN2': len2, 'RCPLAN': '{' + ','.join(RC[c] for c in plan) + '}'}, **dict({} if fmt == 'gzip' else {'FMT_DEFLATE': 1}, **dict({} if cberr is None else {'CBERR': cberr}, **({} if n1 is None else {'N1': n1, 'STEP_SPLIT': 1})))), unwind=max(len1, len2) + 3, unwindset=['htp_gzip_decompressor_decompress:1'],
               unwind_by=[(r'^harness', 16), (r'^LzmaDec_Allocate', 7), (r'^memcpy', 16), (r'^htp_gzip_decompressor_decompress\.0', 6), (r'^htp_gzip_decompressor_decompress\.1', maxstep + 4), (r'^htp_gzip_decompressor_probe', max(max(len1, len2) - 8, 2))],
               restrict_by=[(r'callback', 'cb')], fp_strict=True, tier=tier, timeout=timeout, mem_gb=mem_gb, kfs=list(kfs), flags=['--unwindset', 'htp_gzip_decompressor_decompress:1'] if False else [],
-              statement='decompression glue scenario %d' % scen, bounds='chunks of %d and %d symbolic bytes' % (len1, len2))
+              statement={1: 'undecodable chunk: after the restarts the whole chunk reaches the callback unchanged (pointer, length)', 2: '.lzma header split over two calls: LzmaDec_Allocate sees the first 5 stream bytes, the decoder is offered the stream from offset 13, nothing skipped or twice', 3: 'flow: produced == delivered after the final call, every delivery <= one buffer, offered input contiguous', 4: 'after the callback refused a block no further byte reaches it', 5: 'a decompressor that gave up passes every later chunk and the final call through'}[scen], bounds='%s, chunks of %d and %d symbolic bytes, decoder plan %s%s%s' % (fmt if scen != 2 else 'lzma', len1, len2, ''.join(plan), '' if cberr is None else ', delivery %d refused' % cberr, '' if n1 is None else ', %d decoder call(s) in the first data call' % n1))
 def obligations(tier):
     obs = [Ob('decomp.bomb_arithmetic', 'tx/decomp.c', units=U, models=['@libc_model.c', '@fixed_alloc.c'], remove=['htp_log', 'bstr_alloc', 'bstr_expand', 'htp_req_run_hook_body_data', 'htp_res_run_hook_body_data'], defines={'FUNC': 1, 'FA_CAP': 32},
               unwind=24, unwindset=['strlen.0:40', 'memcmp.0:2000', 'harness.0:2000'], tier='quick', timeout=600, mem_gb=8,
